@@ -14,8 +14,53 @@ import (
 type globWalk struct {
 	call *ssa.Call
 	fn   *ssa.Function // function containing the call
-	cb   *ssa.Function // the callback
+	cb   *ssa.Function // the callback (for a bound method value: the method itself)
 	mc   *ssa.MakeClosure
+	// parameters of the callback by role, and the receiver when the callback is a bound method (state lives in its fields)
+	pathParam, entryParam ssa.Value
+	recvParam             ssa.Value // receiver parameter inside cb, nil for a closure
+	recvArg               ssa.Value // the receiver value in fn (mc.Bindings[0]), nil for a closure
+}
+
+// cellOf: addr (inside the callback) names a piece of state shared with the enclosing function: a captured variable, or a
+// field of the bound receiver. The returned key identifies it on both sides.
+func (gw *globWalk) cellOf(addr ssa.Value) (string, bool) {
+	if fv, ok := addr.(*ssa.FreeVar); ok && gw.recvParam == nil {
+		for i, q := range gw.cb.FreeVars {
+			if q == fv {
+				return fmt.Sprintf("fv%d", i), true
+			}
+		}
+	}
+	if fa, ok := addr.(*ssa.FieldAddr); ok && gw.recvParam != nil {
+		for _, o := range origins(fa.X) {
+			if o == gw.recvParam {
+				return fmt.Sprintf("field%d", fa.Field), true
+			}
+		}
+	}
+	return "", false
+}
+
+// outerCellOf: addr (inside the enclosing function) names the same piece of state.
+func (gw *globWalk) outerCellOf(addr ssa.Value) (string, bool) {
+	if gw.mc == nil {
+		return "", false
+	}
+	if gw.recvArg == nil {
+		for i, b := range gw.mc.Bindings {
+			if b == addr {
+				return fmt.Sprintf("fv%d", i), true
+			}
+		}
+		return "", false
+	}
+	if fa, ok := addr.(*ssa.FieldAddr); ok {
+		if fa.X == gw.recvArg || sameOrigins(fa.X, gw.recvArg) {
+			return fmt.Sprintf("field%d", fa.Field), true
+		}
+	}
+	return "", false
 }
 
 func (c *Ctx) globWalks() []globWalk {
@@ -42,6 +87,22 @@ func (c *Ctx) globWalks() []globWalk {
 					case *ssa.Function:
 						gw.cb = w
 					}
+				}
+			}
+			if gw.cb != nil {
+				// a bound method value: the synthetic wrapper just forwards to the method with the receiver it captured
+				if gw.cb.Synthetic != "" && gw.mc != nil && len(gw.mc.Bindings) == 1 && len(gw.cb.Blocks) == 1 {
+					for _, site := range callSites(gw.cb) {
+						if m := site.Common().StaticCallee(); m != nil && inModule(m) && m.Signature.Recv() != nil {
+							gw.cb = m
+							gw.recvParam = m.Params[0]
+							gw.recvArg = gw.mc.Bindings[0]
+						}
+					}
+				}
+				np := len(gw.cb.Params)
+				if np >= 2 {
+					gw.pathParam, gw.entryParam = gw.cb.Params[np-2], gw.cb.Params[np-1]
 				}
 			}
 			out = append(out, gw)
@@ -120,11 +181,11 @@ func ruleGL1(c *Ctx) *rule {
 		Necessity: "library contract (doublestar v4.7.1 globwalk.go): outside a `**` walk (globDirWalk) a SkipDir from the callback makes the library return from the directory listing for ANY entry — file or directory — so every later sibling that matches is silently omitted; for the bare pattern `**` the first callback is for \".\" and a SkipDir there abandons the whole walk; SkipAll ends the walk everywhere"}
 	for _, gw := range c.globWalks() {
 		r.note("GlobWalk at %s, callback %s", c.ipos(gw.call), fname(gw.cb))
-		if gw.cb == nil || len(gw.cb.Params) < 2 {
+		if gw.cb == nil || gw.entryParam == nil {
 			r.undecided(fname(gw.fn)+" GlobWalk callback", c.ipos(gw.call), "cannot resolve the callback function value")
 			continue
 		}
-		entry := ssa.Value(gw.cb.Params[1])
+		entry := gw.entryParam
 		fi := c.info(gw.cb)
 		n := 0
 		check := func(v ssa.Value, gs []guard, pos string) {
@@ -190,20 +251,23 @@ func ruleGL2(c *Ctx) *rule {
 		Statement: "on every path of the GlobWalk callback that returns nil without having taken the hidden-name branch, exactly one value derived from the callback's path (joined with the walk root) is appended to the result slice",
 		Necessity: "a nil return without an append omits a matching file; two appends include it twice (and change the digest)"}
 	for _, gw := range c.globWalks() {
-		if gw.cb == nil || len(gw.cb.Params) < 2 {
+		if gw.cb == nil || gw.pathParam == nil {
 			r.undecided(fname(gw.fn)+" GlobWalk callback", c.ipos(gw.call), "cannot resolve the callback function value")
 			continue
 		}
-		path := ssa.Value(gw.cb.Params[0])
-		// appends: Store into a free-variable cell (or captured slice) of append(load cell, x...) with x derived from path
+		path := gw.pathParam
+		appendCell := ""
+		// appends: Store into shared state (captured variable / receiver field) of append(load cell, x...) with x derived from path
 		isAppendStore := func(in ssa.Instruction) (bool, bool) {
 			st, ok := in.(*ssa.Store)
 			if !ok {
 				return false, false
 			}
-			if _, ok := st.Addr.(*ssa.FreeVar); !ok {
+			cell, ok := gw.cellOf(st.Addr)
+			if !ok {
 				return false, false
 			}
+			appendCell = cell
 			for _, o := range origins(st.Val) {
 				call, ok := o.(*ssa.Call)
 				if !ok {
@@ -280,10 +344,8 @@ func ruleGL2(c *Ctx) *rule {
 			isCell := func(v ssa.Value) bool {
 				for _, o := range origins(v) {
 					if u, ok := o.(*ssa.UnOp); ok && u.Op == token.MUL {
-						for _, b := range gw.mc.Bindings {
-							if b == u.X {
-								return true
-							}
+						if k, ok := gw.outerCellOf(u.X); ok && (appendCell == "" || k == appendCell) {
+							return true
 						}
 					}
 				}
@@ -325,9 +387,11 @@ func ruleGL2(c *Ctx) *rule {
 							continue
 						}
 						res := sl.run(vals...)
-						for _, bnd := range gw.mc.Bindings {
-							if res.has(bnd) {
-								found = true
+						for v := range res.vals {
+							if u, ok := v.(*ssa.UnOp); ok && u.Op == token.MUL {
+								if k, ok := gw.outerCellOf(u.X); ok && (appendCell == "" || k == appendCell) {
+									found = true
+								}
 							}
 						}
 					}
@@ -397,13 +461,25 @@ func ruleGL3(c *Ctx) *rule {
 			r.ok(key, c.ipos(gw.call), "the declared patterns of GlobDependencies and GlobOutputs reach GlobWalk unchanged")
 		}
 		// absolute path built with the same root
-		if gw.cb != nil && len(gw.cb.Params) >= 2 {
+		if gw.cb != nil && gw.pathParam != nil {
 			key = fname(gw.cb) + " match=Join(root,path)"
-			rootOrig := origins(gw.call.Common().Args[0])
 			var dirfsArg ssa.Value
-			for _, o := range rootOrig {
+			for _, o := range origins(gw.call.Common().Args[0]) {
 				if call, ok := o.(*ssa.Call); ok && calleeName(call.Common()) == "os.DirFS" {
 					dirfsArg = call.Common().Args[0]
+				}
+			}
+			// shared state whose value in the enclosing function is the walked root
+			rootCells := map[string]bool{}
+			if dirfsArg != nil {
+				for _, b := range gw.fn.Blocks {
+					for _, in := range b.Instrs {
+						if st, ok := in.(*ssa.Store); ok && sameOrigins(st.Val, dirfsArg) {
+							if k, ok := gw.outerCellOf(st.Addr); ok {
+								rootCells[k] = true
+							}
+						}
+					}
 				}
 			}
 			okJoin := false
@@ -412,30 +488,14 @@ func ruleGL3(c *Ctx) *rule {
 				js.depth = 0
 				jr := js.run(site.Common().Args...)
 				hasRoot := false
-				if dirfsArg != nil {
-					for _, o := range origins(dirfsArg) {
-						if jr.has(o) {
+				for v := range jr.vals {
+					if u, ok := v.(*ssa.UnOp); ok && u.Op == token.MUL {
+						if k, ok := gw.cellOf(u.X); ok && rootCells[k] {
 							hasRoot = true
 						}
 					}
-					// through the closure cell
-					for v := range jr.vals {
-						if fv, ok := v.(*ssa.FreeVar); ok && gw.mc != nil {
-							for i, b := range gw.mc.Bindings {
-								if gw.cb.FreeVars[i] == fv {
-									if a, ok := b.(*ssa.Alloc); ok {
-										for _, ref := range valueReferrers(a) {
-											if st, ok := ref.(*ssa.Store); ok && st.Addr == ssa.Value(a) && sameOrigins(st.Val, dirfsArg) {
-												hasRoot = true
-											}
-										}
-									}
-								}
-							}
-						}
-					}
 				}
-				if hasRoot && jr.has(gw.cb.Params[0]) {
+				if hasRoot && jr.has(gw.pathParam) {
 					okJoin = true
 				}
 			}
@@ -468,13 +528,7 @@ func ruleGL3(c *Ctx) *rule {
 				if !ok || u.Op != token.MUL {
 					return false
 				}
-				hit := false
-				for _, b := range gw.mc.Bindings {
-					if b == u.X {
-						hit = true
-					}
-				}
-				if !hit {
+				if _, hit := gw.outerCellOf(u.X); !hit {
 					return false
 				}
 			}
@@ -490,9 +544,11 @@ func ruleGL3(c *Ctx) *rule {
 				sl.depth = 0
 				res := sl.run(mu.Value)
 				derived := false
-				for _, bnd := range gw.mc.Bindings {
-					if res.has(bnd) {
-						derived = true
+				for v := range res.vals {
+					if u, ok := v.(*ssa.UnOp); ok && u.Op == token.MUL {
+						if _, ok := gw.outerCellOf(u.X); ok {
+							derived = true
+						}
 					}
 				}
 				if !derived {
@@ -856,6 +912,9 @@ func ruleFD1(c *Ctx) *rule {
 				if il := fw.fi.innermostLoop(g.e.from); il != nil && il != fw.loop && g.e.from == il.header && !il.body[g.e.to()] {
 					continue // the exhaustion edge of the loop over the entries is taken for every listing
 				}
+				if _, _, found, isSearch := searchTest(g.cond, g.pol); isSearch && !found {
+					continue // "no entry satisfies the predicate" is the same exhaustion edge, taken for every listing without a hit
+				}
 				et.tainted = true
 			}
 		}
@@ -995,28 +1054,38 @@ func ruleFD4(c *Ctx) *rule {
 		gs := fw.fi.necessaryGuards(ret.Block())
 		var nameEntry, dirEntry ssa.Value
 		statShape, statRegular := false, false
+		// the hit decided by a predicate over the entries (slices.ContainsFunc / IndexFunc): its ways of returning true carry the guards
 		for _, g := range gs {
-			if bo, ok := g.cond.(*ssa.BinOp); ok && ((bo.Op == token.EQL && g.pol) || (bo.Op == token.NEQ && !g.pol)) {
-				for _, pair := range [][2]ssa.Value{{bo.X, bo.Y}, {bo.Y, bo.X}} {
-					if s, ok := constString(pair[1]); ok && s == nameConst {
-						if call, ok := pair[0].(*ssa.Call); ok && call.Common().IsInvoke() && call.Common().Method.Name() == "Name" {
-							nameEntry = call.Common().Value
-						}
-					}
+			coll, pred, found, isSearch := searchTest(g.cond, g.pol)
+			if !isSearch || !found || !fw.fsTainted(c, coll) || len(pred.Params) != 1 {
+				continue
+			}
+			sets := c.trueGuardSets(pred)
+			allName, allDir := len(sets) > 0, len(sets) > 0
+			for _, set := range sets {
+				ne, de, _ := fdGuardFacts(set, nameConst)
+				if ne == nil || !sameOrigins(ne, pred.Params[0]) {
+					allName = false
+				}
+				if de == nil || !sameOrigins(de, pred.Params[0]) {
+					allDir = false
 				}
 			}
-			if call, ok := g.cond.(*ssa.Call); ok && strings.HasSuffix(calleeName(call.Common()), ").IsDir") && !g.pol {
-				if call.Common().IsInvoke() {
-					dirEntry = call.Common().Value
-				}
+			if allName {
+				nameEntry = coll
 			}
-			if call, ok := g.cond.(*ssa.Call); ok && strings.HasSuffix(calleeName(call.Common()), ").IsRegular") && g.pol {
-				dirEntry = nameEntry
-				statRegular = true
+			if allDir {
+				dirEntry = coll
 			}
-			if call, ok := g.cond.(*ssa.Call); ok && strings.HasSuffix(calleeName(call.Common()), ").IsDir") && !g.pol {
-				statRegular = true
+		}
+		if ne, de, sr := fdGuardFacts(gs, nameConst); true {
+			if ne != nil {
+				nameEntry = ne
 			}
+			if de != nil {
+				dirEntry = de
+			}
+			statRegular = sr
 		}
 		// the shape without a directory listing: the hit is a successful os.Stat of <dir>/NAME
 		if nameEntry == nil {
@@ -1089,6 +1158,37 @@ func ruleFD4(c *Ctx) *rule {
 		}
 	}
 	return r
+}
+
+// fdGuardFacts reads a guard set: the entry whose Name() is compared equal to NAME, the entry tested !IsDir(), and
+// whether a not-a-directory / regular-file test is among the guards.
+func fdGuardFacts(gs []guard, nameConst string) (nameEntry, dirEntry ssa.Value, statRegular bool) {
+	for _, g := range gs {
+		if bo, ok := g.cond.(*ssa.BinOp); ok && ((bo.Op == token.EQL && g.pol) || (bo.Op == token.NEQ && !g.pol)) {
+			for _, pair := range [][2]ssa.Value{{bo.X, bo.Y}, {bo.Y, bo.X}} {
+				if s, ok := constString(pair[1]); ok && s == nameConst {
+					if call, ok := pair[0].(*ssa.Call); ok && call.Common().IsInvoke() && call.Common().Method.Name() == "Name" {
+						nameEntry = call.Common().Value
+					}
+				}
+			}
+		}
+		if call, ok := g.cond.(*ssa.Call); ok && strings.HasSuffix(calleeName(call.Common()), ").IsDir") && !g.pol {
+			if call.Common().IsInvoke() {
+				dirEntry = call.Common().Value
+			}
+		}
+	}
+	for _, g := range gs {
+		if call, ok := g.cond.(*ssa.Call); ok && strings.HasSuffix(calleeName(call.Common()), ").IsRegular") && g.pol {
+			dirEntry = nameEntry
+			statRegular = true
+		}
+		if call, ok := g.cond.(*ssa.Call); ok && strings.HasSuffix(calleeName(call.Common()), ").IsDir") && !g.pol {
+			statRegular = true
+		}
+	}
+	return
 }
 
 func constantStringValOf(m *ssa.NamedConst) string {
